@@ -80,15 +80,40 @@ impl PrefixEngine {
     }
 
     pub(crate) fn check(&self, cfg: Cfg, r: &Runner, only: Option<usize>) -> (Option<Failure>, u64, usize) {
-        let p = tmp_file("c09");
+        // the image lives in a directory of its own, so that whatever else a save() leaves next
+        // to it (backups, temporaries) goes away with the case
+        let dir = tmp_file("c09d");
+        let _ = std::fs::create_dir_all(&dir);
+        let p = dir.join("image.sodg");
+        struct Rm(std::path::PathBuf);
+        impl Drop for Rm {
+            fn drop(&mut self) {
+                let _ = std::fs::remove_dir_all(&self.0);
+            }
+        }
+        let _rm = Rm(dir.clone());
         let fail = |kind: &str, k: usize, d: String| Failure { prop: "C09".into(), kind: kind.into(), step: k, detail: d };
-        // the target path already holds an older, longer file (a previous checkpoint): save()
-        // must replace it, so that the file IS the image
-        {
-            let probe = tmp_file("c09len");
+        // the target path already holds an older checkpoint: either a longer file of other
+        // content, or a complete valid image of an earlier state of a graph (saved by save()
+        // itself); save() must replace it, so that the file IS the image — and a cut image
+        // must not be answered from anything else
+        if r.done.len() % 2 == 0 {
+            let probe = dir.join("probe");
             let approx = r.g.save(&probe).unwrap_or(0);
             let _ = std::fs::remove_file(&probe);
             let _ = std::fs::write(&p, vec![0xA5u8; approx + approx / 4 + 4096]);
+        } else {
+            let mut older = crate::graph::new_graph(cfg.n, cfg.cap);
+            older.add(0);
+            if cfg.cap > 1 {
+                older.add(cfg.cap - 1);
+                older.put(cfg.cap - 1, &crate::graph::hex_of(&[0xBB; 11]));
+            }
+            let _ = older.save(&p);
+            if r.done.len() % 4 == 3 {
+                // a checkpoint before that one, too
+                let _ = older.save(&p);
+            }
         }
         let size = match catch_unwind(AssertUnwindSafe(|| r.g.save(&p))) {
             Ok(Ok(sz)) => sz,
